@@ -114,6 +114,26 @@ def s1a (enc : Enc) (L i : Nat) : PS := ⟨(zzx enc L i).2.1, (zzx enc L i).2.2,
 def ladderPair (enc : Enc) (L i : Nat) (create : Bool) : PS × PS :=
   (s0 enc L i, if create then s1c enc L i else s1a enc L i)
 
+/-! ### the reference ladder operator (what `FieldOperator.as_matrix` builds per site) -/
+
+/-- one Kronecker factor of `clist[i]` / `alist[i]` at site `k`: identity before `i`, `U = [[0,0],[1,0]]` (creation) or its
+transpose on site `i`, `Z` on later sites -/
+def ladderSite (i : Nat) (create : Bool) (k : Nat) (rb cb : Bool) : Int :=
+  if k < i then (if rb = cb then 1 else 0)
+  else if k = i then (if create then (if rb && !cb then 1 else 0) else (if !rb && cb then 1 else 0))
+  else (if rb = cb then (if rb then -1 else 1) else 0)
+
+/-- entry of the reference ladder matrix at flat indices (site 0 most significant) -/
+def ladderEntry (L i : Nat) (create : Bool) (r c : Nat) : Int :=
+  ((List.range L).map fun k => ladderSite i create k (bitAt L k r) (bitAt L k c)).prod
+
+/-- all non-zero entries `(r, c, value)`, row-major -/
+def ladderSparse (L i : Nat) (create : Bool) : List (Nat × Nat × Int) :=
+  let d := 2 ^ L
+  (List.range d).flatMap fun r => (List.range d).filterMap fun c =>
+    let e := ladderEntry L i create r c
+    if e == 0 then none else some (r, c, e)
+
 /-! ### product expansion -/
 
 /-- `[ps @ a for ps in pstrings] + [ps @ b for ps in pstrings]` -/
